@@ -348,7 +348,10 @@ func exec07(c Case) interface{} {
 		mutateEverywhere(src)
 		o.Copy.Indep2 = cp3snap.same(snap(cp3)) && cp3.GEDCOMString(0) == cp2text
 	})
-	o.Filters = runFilters(a)
+	o.Filters = []filterObs{}
+	if len(c.A)%3 == 0 { // a third of the trees: the filter results triple the size of an observation
+		o.Filters = runFilters(a)
+	}
 	return o
 }
 
